@@ -215,6 +215,16 @@ def r03_4(prog: Program, rep: Report, direction="unmarshal", rule="R03.4"):
     for i, (p, r) in enumerate(rets):
         ok = any(pol and g[0] == "cmp" and g[1] == "in" and g[2] == r and g[3] == C.sattr("values") for g, pol in p.guards())
         rep.check(ok, rule, c.qualname, f.loc, f"return {T.show(r)[:50]} is dominated by a membership test on the same value", f"return {T.show(r)[:80]} is not dominated by `<that value> in self.values`", detail=f"ret#{i}")
+    # `x in self.values` is identity-or-equality: True == 1 == 1.0 == Decimal(1), so a value of another class than the
+    # declared member passes and is handed back.  A class-aware test (same class, or the declared member returned) is needed.
+    eq_only = []
+    for i, (p, r) in enumerate(rets):
+        for g, pol in p.guards():
+            if pol and g[0] == "cmp" and g[1] == "in" and g[2] == r and g[3] == C.sattr("values"):
+                class_aware = any(T.contains(g2, lambda x: (x[0] == "attr" and x[2] == "__class__") or T.is_call_to(x, "builtins.type", "builtins.isinstance")) for g2, _ in p.guards())
+                if not class_aware:
+                    eq_only.append(i)
+    rep.check(not eq_only, rule, c.qualname, f.loc, "membership is class-aware (or the declared member is what is returned)", "membership is tested with `in` alone (identity or ==) and the input object is returned: True, 1.0 and Decimal(1) pass for Literal[1] and come back unchanged; 1 passes for Literal[True]", detail="equality-membership")
     falls = [p for p in ps if p.exit[0] != "return"]
     okf = bool(falls) and all(p.exit[0] == "raise" and T.is_call_to(p.exit[1], "builtins.ValueError") for p in falls)
     rep.check(okf, rule, c.qualname, f.loc, "every non-member path raises ValueError", "a non-member path does not end in raise ValueError", detail="reject")
@@ -246,7 +256,7 @@ def run(prog: Program, rep: Report, tier: str):
     rep.rule("R03.1", "no raw member reaches the output of a composite unmarshaller", floor=5)
     rep.rule("R03.2", "scalar/temporal returns are class-guarded, constructed, or delegated", floor=25)
     rep.rule("R03.3", "fixed-tuple arity", floor=1)
-    rep.rule("R03.4", "Literal membership dominates every return; fall-through raises ValueError", floor=4)
+    rep.rule("R03.4", "Literal membership dominates every return and is class-aware; fall-through raises ValueError", floor=5)
     rep.rule("R03.7", "a TypedDict result has its required keys", floor=1)
     r03_7(prog, rep)
     rep.rule("R03.6", "composite forms reach the routine of their own structural kind (fixed tuples keep arity/positions; shared with R01.6)", floor=15)
